@@ -66,6 +66,8 @@ type HarnessResult struct {
 	UnknownFeas  int
 	Vacuous      []string
 	CrossChecks  int
+	CrossAgree   int // obligations re-decided identically by a secondary solver
+	CrossUnknown int // secondary solver timeouts / unknown
 	Validation   []ValidationSample
 	pathObs      []pathObs
 	mu           sync.Mutex
@@ -78,6 +80,7 @@ func (e *Engine) Explore(h *ssa.Function, opts HarnessOpts, stats *SolverStats) 
 	if opts.Workers <= 0 {
 		opts.Workers = 4
 	}
+	secStats := &SolverStats{}
 	if opts.MaxPaths <= 0 {
 		opts.MaxPaths = 200000
 	}
@@ -94,9 +97,13 @@ func (e *Engine) Explore(h *ssa.Function, opts HarnessOpts, stats *SolverStats) 
 		go func() {
 			defer wg.Done()
 			var s *Solver
+			var sec []*Solver
 			defer func() {
 				if s != nil {
 					s.Close()
+				}
+				for _, x := range sec {
+					x.Close()
 				}
 			}()
 			for {
@@ -122,7 +129,14 @@ func (e *Engine) Explore(h *ssa.Function, opts HarnessOpts, stats *SolverStats) 
 						panic(err)
 					}
 				}
-				pr := e.ExecPath(s, h, prefix, opts.MapOrder)
+				if e.CrossCheck > 0 && sec == nil {
+					for _, k := range []SolverKind{SolverZ3Old, SolverCVC5} {
+						if x, err := NewSolver(k, e.TimeoutMs, secStats, e.Prelude); err == nil {
+							sec = append(sec, x)
+						}
+					}
+				}
+				pr := e.ExecPath(s, h, prefix, opts.MapOrder, sec...)
 				res.record(pr, opts)
 
 				mu.Lock()
@@ -160,6 +174,8 @@ func (res *HarnessResult) record(pr PathResult, opts HarnessOpts) {
 	res.Forks += len(pr.Decisions)
 	res.Outcomes[pr.Outcome]++
 	res.Steps += int64(r.steps)
+	res.CrossAgree += r.CrossAgree
+	res.CrossUnknown += r.CrossUnknown
 	res.UnknownFeas += r.unknownFeas
 	for _, a := range r.Asserts {
 		m := res.AssertStats[a.Label]
